@@ -362,13 +362,6 @@ Qed.
 Lemma failed_producer_restored : forall f s c k g s',
   get s c = Some k -> cst k = Initialized g ->
   ev true (S f) (CCompute c) s = (s', Exn) ->
-  exists k', get s' c = Some k' /\ cst k' = Initialized g /\ nthrows k' = N.succ (nthrows k').
-Proof.
-Abort.
-
-Lemma failed_producer_restored : forall f s c k g s',
-  get s c = Some k -> cst k = Initialized g ->
-  ev true (S f) (CCompute c) s = (s', Exn) ->
   exists k', get s' c = Some k' /\ cst k' = Initialized g.
 Proof.
   intros f s c k g s' Hg Hc H. simpl in H. rewrite Hg, Hc in H.
